@@ -226,7 +226,8 @@ func runC03(e *core.Env) error {
 		if err != nil {
 			return err
 		}
-		cachedClient := rep%2 == 1
+		midBatch := rep%3 == 2 // (beyond the stated quantifier: the reply to ONE batch request mixes two forks)
+		cachedClient := rep%2 == 1 || midBatch
 		if cachedClient {
 			w.client = jrpc2.New(w.node.URL()).WithMaxReads(2 + rr.Intn(3)).WithPollDuration(time.Hour)
 		}
@@ -237,6 +238,9 @@ func runC03(e *core.Env) error {
 		}
 		conc := 2 + rr.Intn(2)
 		part := 2
+		if midBatch {
+			conc, part = 1, 3+rr.Intn(2)
+		}
 		t, err := w.addTask("t1", root.Integrations[0], "src1", 1, 0, conc*part, conc)
 		if err != nil {
 			w.close()
@@ -254,15 +258,38 @@ func runC03(e *core.Env) error {
 				return
 			}
 			n++
-			if n == 2 { // just before the second partition is answered
+			if n == 2 && !midBatch { // just before the second partition is answered
 				c := w.node.Chain()
 				// replace everything from block 2 on (block 2 lies in whichever partition holds [1,2] or [3,4]... the
 				// fork point 2 is inside the first partition's range [1,2])
 				c.Reorg(len(c.Blocks)-2, len(c.Blocks)-2+rr.Intn(2), simnode.GenOpts{Salt: salt, MakeTx: transferMakeTx})
 			}
 		})
+		if midBatch {
+			fired := false
+			w.node.SetAfter(func(ex *simnode.Exchange) {
+				if fired || !ex.Batch || len(ex.Requests) < 2 || len(ex.Responses) != len(ex.Requests) {
+					return
+				}
+				for _, rq := range ex.Requests {
+					if rq.Method != "eth_getBlockByNumber" {
+						return
+					}
+				}
+				fired = true
+				c := w.node.Chain()
+				// blocks 2.. are replaced AFTER the first elements were rendered; only the last element is re-rendered
+				c.Reorg(len(c.Blocks)-2, len(c.Blocks)-2+1, simnode.GenOpts{Salt: salt, MakeTx: transferMakeTx})
+				w.node.Redispatch(ex, len(ex.Responses)-1)
+			})
+		}
 		w.step(t, noFault)
 		w.node.SetBefore(nil)
+		w.node.SetAfter(nil)
+		if midBatch {
+			w.step(t, noFault) // the retry asks for the same range again
+			w.tags["reorg-mid-batch-deterministic"]++
+		}
 		w.tags["reorg-between-partitions"]++
 		w.grow(2)
 		for k := 0; k < 60 && !w.dead; k++ {
@@ -276,7 +303,7 @@ func runC03(e *core.Env) error {
 		}
 		op, impl := w.caseOp()
 		e.Add(core.Case{Op: op, Impl: impl, Oracles: oracles, Nontrivial: true, Key: fmt.Sprintf("c03-part %d %d", rep, e.Seed),
-			Tags: []string{"reorg-between-partitions", fmt.Sprintf("cached-client=%v", cachedClient), fmt.Sprintf("partitions=%d", conc)}, Detail: map[string]any{"history": strings.Split(op, "\n")}})
+			Tags: []string{"reorg-between-partitions", fmt.Sprintf("cached-client=%v", cachedClient), fmt.Sprintf("partitions=%d", conc), fmt.Sprintf("mid-batch=%v", midBatch)}, Detail: map[string]any{"history": strings.Split(op, "\n")}})
 		w.close()
 	}
 	return nil
